@@ -1,6 +1,6 @@
 use crate::{
     gc::GC,
-    object::{Error, FromString, Object, Type},
+    object::{Error, FromString, Object, Type, MAX_INT, MIN_INT},
 };
 
 #[repr(u8)]
@@ -160,6 +160,14 @@ fn call_int(args: &[Object]) -> Result<Object, Error> {
             )))
         }
     };
+
+    // not every float or numeric string fits in an integer object
+    if !(MIN_INT..=MAX_INT).contains(&result) {
+        return Err(Error::ArgumentError(format!(
+            "{} is te groot of te klein voor een integer",
+            args[0]
+        )));
+    }
 
     Ok(Object::int(result))
 }
